@@ -177,13 +177,14 @@ Theorem C13_import_fix_result : forall pre post fk nl,
 Proof. exact import_fix_result. Qed.
 Print Assumptions C13_import_fix_result.
 
-(* an insertion with the newline on the side of the neighbouring code; no import fix in a CommonJS file *)
+(* an insertion with the newline on the side of the neighbouring code (a blank instead when more code follows the last
+   import on its line); no import fix in a CommonJS file *)
 Theorem C13_global_change_shape : forall last code_start s e fk,
   In fk import_kinds ->
   global_change true last code_start s e fk = None /\
   exists a t, global_change false last code_start s e fk = Some (a, a, t) /\
     match last with
-    | Some p => a = p /\ t = to_text fk NlLeading
+    | Some (p, inline) => a = p /\ t = to_text fk (if inline then NlInline else NlLeading)
     | None => a = code_start /\ t = to_text fk NlTrailing
     end.
 Proof. exact global_change_shape. Qed.
